@@ -30,6 +30,7 @@ import (
 	"sync"
 	"syscall"
 	"time"
+	"unsafe"
 
 	libaudit "github.com/elastic/go-libaudit/v2"
 
@@ -60,6 +61,16 @@ func (g *clientGen) socketCases() []KCase {
 			c.HdrPid = 1 + g.rng.Uint32()>>1
 		}
 		out = append(out, c)
+	}
+	// a kernel datagram that fills the receive buffer exactly (and with 1, 4 bytes to spare): returned unchanged
+	for _, n := range []int{0, 4, 28, 92, 220, 988, 4060} {
+		for _, spare := range []int{0, 1, 4} {
+			out = append(out, KCase{Kind: "exactfit", Buf: hex.EncodeToString(g.bytesN(n)), Typ: uint16(2000 + g.rng.Intn(60000)), Calls: spare})
+		}
+	}
+	// the sequence counter across the uint32 wrap (the counter is started just below 2^32)
+	for _, back := range []uint32{1, 2, 5} {
+		out = append(out, KCase{Kind: "seqwrap", Seq0: 0xFFFFFFFF - back, Calls: 12})
 	}
 	// spoof: every length 1..64, unicast and multicast
 	for n := 1; n <= 64; n++ {
@@ -584,6 +595,123 @@ func runConcCloseCase(ctx *Ctx, c KCase, idx int) *common.Violation {
 		if extra != nil {
 			return viol("C17: a later Close returned an error")
 		}
+	}
+	return nil
+}
+
+// runExactFitCase: a client whose receive buffer is exactly as long as the kernel's reply (an NLMSG_ERROR echoing a
+// request of an unknown type: 36 bytes + the payload), or Calls bytes longer.
+func runExactFitCase(ctx *Ctx, c KCase, idx int) *common.Violation {
+	payload := hexBytes(c.Buf)
+	ctx.Res.Count(c.canon(), true)
+	ctx.Res.Hist("exact_fit")
+	viol := func(clause, impl string) *common.Violation {
+		return &common.Violation{Kind: "monitor", Clause: clause, Input: c, Impl: impl, Case: idx}
+	}
+	want := 36 + len(payload)
+	nl, err := libaudit.NewNetlinkClient(syscall.NETLINK_ROUTE, 0, make([]byte, want+c.Calls), nil)
+	if err != nil {
+		socks.note(ctx, "route", "C18 exact-fit clauses NOT explored: cannot open a NETLINK_ROUTE socket: "+err.Error())
+		return nil
+	}
+	defer nl.Close()
+	seq, err := nl.Send(syscall.NetlinkMessage{Header: syscall.NlMsghdr{Type: c.Typ, Flags: uint16(syscall.NLM_F_REQUEST | syscall.NLM_F_ACK)}, Data: payload})
+	if err != nil {
+		return viol("C18: Send on a NETLINK_ROUTE socket failed: "+err.Error(), "")
+	}
+	var raw []byte
+	parser := func(b []byte) ([]syscall.NetlinkMessage, error) {
+		raw = append([]byte(nil), b...)
+		return syscall.ParseNetlinkMessage(b)
+	}
+	deadline := time.Now().Add(2 * time.Second)
+	var msgs []syscall.NetlinkMessage
+	for {
+		msgs, err = nl.Receive(true, parser)
+		if err == nil {
+			break
+		}
+		if (errors.Is(err, syscall.EAGAIN) || errors.Is(err, syscall.EINTR)) && time.Now().Before(deadline) {
+			time.Sleep(200 * time.Microsecond)
+			continue
+		}
+		return viol(fmt.Sprintf("C18: Receive returned an error for a kernel datagram of %d bytes into a receive buffer of %d bytes: %v", want, want+c.Calls, err), "")
+	}
+	if len(raw) != want {
+		return viol(fmt.Sprintf("C18: Receive handed the parser %d bytes of a kernel datagram of %d bytes (receive buffer %d bytes)", len(raw), want, want+c.Calls), common.Hex(raw))
+	}
+	if len(msgs) != 1 || msgs[0].Header.Type != syscall.NLMSG_ERROR || msgs[0].Header.Seq != seq || len(msgs[0].Data) != want-16 || !bytes.Equal(msgs[0].Data[20:], payload) {
+		return viol("C18: Receive did not return the type and payload of the kernel's datagram unchanged (exact-fit buffer)", fmt.Sprintf("%+v", msgs))
+	}
+	return nil
+}
+
+// setNetlinkSeq starts the client's sequence counter at v. The counter is an unexported field: it is found by name
+// and type through reflection (uint32, or a 4-byte sync/atomic type), so no hook in the library is needed; false
+// when there is no such field any more.
+func setNetlinkSeq(c *libaudit.NetlinkClient, v uint32) bool {
+	rv := reflect.ValueOf(c).Elem()
+	for i := 0; i < rv.NumField(); i++ {
+		f := rv.Type().Field(i)
+		if !strings.Contains(strings.ToLower(f.Name), "seq") || f.Type.Size() != 4 {
+			continue
+		}
+		*(*uint32)(unsafe.Pointer(rv.Field(i).UnsafeAddr())) = v
+		return true
+	}
+	return false
+}
+
+// runSeqWrapCase: Calls Sends on a fresh client whose counter starts at Seq0; every request is echoed by the kernel.
+// The values returned and the values on the wire agree and go up by one, modulo 2^32, without repeating.
+func runSeqWrapCase(ctx *Ctx, c KCase, idx int) *common.Violation {
+	ctx.Res.Count(c.canon(), true)
+	ctx.Res.Hist("seq_wrap")
+	viol := func(clause, impl string) *common.Violation {
+		return &common.Violation{Kind: "monitor", Clause: clause, Input: c, Impl: impl, Case: idx}
+	}
+	nl, err := libaudit.NewNetlinkClient(syscall.NETLINK_ROUTE, 0, make([]byte, 4096), nil)
+	if err != nil {
+		socks.note(ctx, "route", "C18 wrap clauses NOT explored: cannot open a NETLINK_ROUTE socket: "+err.Error())
+		return nil
+	}
+	defer nl.Close()
+	if !setNetlinkSeq(nl, c.Seq0) {
+		socks.note(ctx, "seqfield", "C18 wrap clauses NOT explored: NetlinkClient has no 4-byte sequence counter field to start near 2^32")
+		return nil
+	}
+	var got []string
+	prev := c.Seq0
+	for i := 0; i < c.Calls; i++ {
+		seq, err := nl.Send(syscall.NetlinkMessage{Header: syscall.NlMsghdr{Type: 3000, Flags: uint16(syscall.NLM_F_REQUEST | syscall.NLM_F_ACK)}, Data: []byte{byte(i)}})
+		if err != nil {
+			return viol("C18: Send on a NETLINK_ROUTE socket failed: "+err.Error(), "")
+		}
+		var raw []byte
+		deadline := time.Now().Add(2 * time.Second)
+		for {
+			_, err = nl.Receive(true, func(b []byte) ([]syscall.NetlinkMessage, error) {
+				raw = append([]byte(nil), b...)
+				return syscall.ParseNetlinkMessage(b)
+			})
+			if err == nil {
+				break
+			}
+			if (errors.Is(err, syscall.EAGAIN) || errors.Is(err, syscall.EINTR)) && time.Now().Before(deadline) {
+				time.Sleep(200 * time.Microsecond)
+				continue
+			}
+			return viol(fmt.Sprintf("C18: the kernel did not answer send %d near the sequence wrap: %v", i, err), "")
+		}
+		if len(raw) < 36 {
+			return viol("C18: kernel reply too short", common.Hex(raw))
+		}
+		wire := binary.LittleEndian.Uint32(raw[28:])
+		got = append(got, fmt.Sprintf("%d/%d", seq, wire))
+		if seq != prev+1 || wire != seq {
+			return viol(fmt.Sprintf("C18: send %d after counter value %d returned sequence %d with %d on the wire: not distinct and increasing (modulo 2^32)", i, prev, seq, wire), strings.Join(got, " "))
+		}
+		prev = seq
 	}
 	return nil
 }
